@@ -141,7 +141,7 @@ RETURNS = [
     ("retlong", OrderedDict((("doc", "the result that is described at considerable length so that the emitted line certainly exceeds the wrap width of one hundred columns"), ("typ", "int")))),
 ]
 
-HEADERS = [("one", "Summary line."), ("two", "Summary line.\n\nLonger description of the thing\nover two lines.")]
+HEADERS = [("one", "Summary line."), ("two", "Summary line.\n\nLonger description of the thing\nover two lines."), ("empty", "")]
 
 
 def mk_ir(params, ret=None, doc="Summary line.", name=None):
